@@ -52,7 +52,9 @@ def families(tier):
         hs = list(trio)
         names = ['A', 'B'] if place == 'fwd_bus' else ['A']
         if place in ('child_aw', 'child_ff'):
-            hs.append(dict(bus='A', pat='P', name='hp', prog=[('disp', 'A', 'C', 'await' if place == 'child_aw' else 'ff'), ('ret', 'p')]))
+            # (after the child - failed handler and all - is done, the parent handler dispatches one more event: its lineage must be the parent's, not the failed child's)
+            hs.append(dict(bus='A', pat='P', name='hp', prog=[('disp', 'A', 'C', 'await' if place == 'child_aw' else 'ff'), ('disp', 'A', 'Z', 'ff'), ('ret', 'p')]))
+            hs.append(dict(bus='A', pat='Z', name='hz', prog=[('ret', 'z')]))
             hs.append(dict(bus='A', pat='P', name='hp_after', prog=[('ret', 'q')]))
         if place == 'fwd_bus':
             hs.append(dict(bus='A', pat='P', name='hpA', prog=[('ret', 'a')]))
@@ -169,6 +171,20 @@ def oracle(spec, res):
     for ev, fe in fin.items():
         if fe['status'] != 'completed' or not fe['sig']:
             out.append(V('event_did_not_complete', f'{ev}: {fe["status"]} {fe["sig"]}', exc_type=typ))
+    # a handler's failure leaks nothing into what is dispatched afterwards: every event a handler dispatched has that handler's event as its parent and is that
+    # handler's child, and nobody else's
+    member = {}
+    for pe, fe in fin.items():
+        for r in fe['results']:
+            for ch in r['children']:
+                member.setdefault(ch, []).append((pe, r['bus'], r['h']))
+    for x, fe in fin.items():
+        fd = next((d for d in tr.dispatches if d[4] == x and d[6] == 'prog' and d[5] == 'ok'), None)
+        if fd is None or fd[2] not in tr.who_info:
+            continue
+        b_, h_, e_ = tr.who_info[fd[2]]
+        if fe['parent'] != e_ or sorted(member.get(x, [])) != [(e_, b_, h_)]:
+            out.append(V('error_leaked_context_to_a_later_dispatch', f'{x} dispatched by {fd[2]}: parent {fe["parent"]}, child of {member.get(x, [])}; expected parent {e_}, child of {(e_, b_, h_)}', exc_type=typ))
     # accessors
     for r in res['log']:
         if r[2] != 'accessor':
